@@ -416,6 +416,18 @@ fn record(c: &Value) -> R<Value> {
     }
     // result type of the operator node (the type in which "representable" is judged)
     let cls = c["cls"].as_str().unwrap_or("");
+    if cls == "prop2" && c["op"] == "mul" {
+        // the solver's own intermediate (public API): left' = (parent / right) ∩ left -- reported so that the known
+        // zero-endpoint division finding can be keyed on the divisor actually used for the second step
+        if let (Ok(p), Ok(a), Ok(b)) = (iv_in(&c["p"]), iv_in(&c["a"]), iv_in(&c["b"])) {
+            let mid = catch_unwind(AssertUnwindSafe(|| apply_operator(&Operator::Divide, &p, &b).and_then(|q| q.intersect(&a))));
+            let v = match mid {
+                Ok(Ok(Some(m))) => iv_out(&m).unwrap_or(json!("none")),
+                _ => json!("none"),
+            };
+            ev.insert("mid".into(), v);
+        }
+    }
     if cls == "prop2" || cls == "prop1" {
         let op = c["op"].as_str().unwrap_or("");
         let rt = if matches!(op, "add" | "sub" | "mul" | "div" | "neg" | "cast") {
